@@ -8,6 +8,10 @@ class _Marker(Exception):
     pass
 
 
+class _BaseMarker(BaseException):
+    """Leaves a block the way GeneratorExit / KeyboardInterrupt do: not derived from Exception."""
+
+
 def _block(conv):
     """Generator holding a real `with conv:` block open until told how to leave."""
     try:
@@ -15,8 +19,10 @@ def _block(conv):
             cmd = yield 'entered'
             if cmd == 'exc':
                 raise _Marker()
+            if cmd == 'base':
+                raise _BaseMarker()
         yield 'left'                    # normal exit - or the exception was swallowed
-    except _Marker:
+    except (_Marker, _BaseMarker):
         yield 'left_exc'                # the exception propagated out of the with statement
 
 
@@ -96,9 +102,9 @@ class ConvStackAdapter:
                 self.blocks.append(g)
             elif act == 'Leave':
                 g = self.blocks.pop()
-                r = g.send('exc' if arg == 'leave_exc' else 'normal')
+                r = g.send({'leave_exc': 'exc', 'leave_base': 'base'}.get(arg, 'normal'))
                 g.close()
-                if arg == 'leave_exc' and r != 'left_exc':
+                if arg in ('leave_exc', 'leave_base') and r != 'left_exc':
                     return True, 'exception-swallowed'
             elif act == 'RegGen':
                 self.G.register_converter(self.gen_obj(arg))
